@@ -16,7 +16,7 @@ CHECKS = {
     "C01": (True, "SSA constructor-agreement, aliasing/provenance and cursor-pairing rules (CTOR, CLAMP, RET-SELF, ALIAS, CURSOR-PAIR, PROV)",
             "Necessary structural conditions of lossless tiling: the in-memory constructor initialises the same machine as the streaming one, Source aliases the caller's buffer through a capacity-clamped slice, every prefix cut of the buffer is paired with offset/line/index updates, and offset/line addends derive from unpaddedNullLength/lineCount. Does not decide range ordering or the arithmetic inside the helpers.",
             "go/types + go/ssa; field-based origin abstraction; helper arithmetic trusted"),
-    "C04": (False, "SSA latch/provenance proof that Parse's panic is unreachable, definite-divergence and reader-exit loop rules, finite-domain unreachability, lineParser typestate, child-arity backing",
+    "C04": (True, "SSA latch/provenance proof that Parse's panic is unreachable, definite-divergence and reader-exit loop rules, finite-domain unreachability, lineParser typestate, child-arity backing",
             "Structural parts of totality: Parse cannot reach panic(err) (latch + provenance), errors returned by Render/Format/NextBlock originate from the reader/writer, no loop has a state-preserving cycle (LOOP-D) or an end-of-input-blind reader cycle (LOOP-N), explicit unreachable-defaults are unreachable over finite domains, lineParser API state guards cannot fire from any block rule, positional child accesses are backed by producer guarantees. Implicit bounds/nil panics and progress-making loop termination are not decided.",
             "go/ssa CFG and dominators; BSET finite-domain propagation; idempotent reader methods list"),
     "C05": (True, "BSET containment matrix, constant-kind open-call audit, marker-first path rule, construction-sequence enumeration against the documented child grammar",
